@@ -104,7 +104,8 @@ def cases(tier: str, seed: int) -> list[dict]:
                     hist.append({"fam": "history", "solver": solver, "regu": regu, "split": split, "dim": dim, "et": et, "program": "cycle", "het": True})
     nh = 1 if tier == "quick" else 6
     for r in range(nh):
-        out += [dict(h) for h in hist]
+        # the stopping rule of the staggered iteration (convOption 0 .. 3) is part of the workload: irreversibility must not depend on it
+        out += [dict(h, conv=(i + r + 2) % 4) for i, h in enumerate(hist)]
     for i, c in enumerate(out):
         tag = f"{c['split']}-{c['mat']}-{c['dim']}D{'ps' if c['ps'] else ''}{'-het-' + c['het'] if c.get('het') else ''}" if c["fam"] == "states" else f"{c['solver']}-{c['regu']}-{c['split']}-{c['et']}-{c['program']}{'-het' if c.get('het') else ''}"
         c["id"] = f"C17-{i:05d}-{c['fam']}-{tag}"
@@ -561,7 +562,8 @@ def run_history(case, ctx, rng):
                     simu.Bc_Init()
                     simu.add_dirichlet(n0, [0.0] * dim, names)
                     simu.add_dirichlet(nL, [float(lam)], ["x"])
-                    simu.Solve(tolConv=1e-3 if solver != "History" else 1e-2, maxIter=60)
+                    conv = int(case.get("conv", 2))
+                    simu.Solve(tolConv=1e-3 if solver != "History" else 1e-2, maxIter=60 if conv != 3 else 25, convOption=conv)
                     simu.Save_Iter()
                     res = simu.Get_results(-1)
                     d = np.asarray(res["damage"], float)
@@ -599,7 +601,7 @@ def run_history(case, ctx, rng):
                         unloaded_after_damage = True
                     dmax_seen = max(dmax_seen, float(d.max()))
     finally:
-        ctx.describe(f"history/{solver}/{regu}/{split}/{et}/{program}{'/het' if case.get('het') else ''}", unloaded_after_damage or program == "zero", solver=solver, regu=regu, split=split, et=et,
+        ctx.describe(f"history/{solver}/{regu}/{split}/{et}/{program}{'/het' if case.get('het') else ''}/conv{case.get('conv', 2)}", unloaded_after_damage or program == "zero", solver=solver, regu=regu, split=split, et=et,
                      loads=[float(x) for x in loads], dmax=dmax_seen)
 
 
